@@ -251,6 +251,22 @@ def check_case(case):
                 q2 = det.eta_and_radpix_to_detyz(e, rp, c[0], c[1])
                 r.check("pix-rt", float(np.max(np.abs(np.array(q2, float) - q))), 1e-6 * (abs(c[0]) + abs(c[1]) + rp), key + ":rt", "pixel restored", q, q2)
                 n += 1
+        # positions a ladder of tiny offsets off the beam-centre column / row (eta within 1e-9 .. 1e-4 degrees of 0, 90, 180, 270) at small radius:
+        # the round trip is limited by arccos noise (~1.5e-8 rad x radius), a branch threshold of 1e-6 pixel is 100 times that
+        for dlt in (1e-9, -1e-8, 1e-7, -5e-7, 1e-6, -3e-6, 1e-5, 1e-4):
+            for base_dy, base_dz in ((0.0, 3.0), (0.0, -2.0), (3.0, 0.0), (-1.5, 0.0)):
+                dy, dz = (dlt, base_dz) if base_dy == 0.0 else (base_dy, dlt)
+                q = np.array([c[0] + dy, c[1] + dz], float)
+                dyq, dzq = float(q[0] - c[0]), float(q[1] - c[1])  # what survives the addition to the centre
+                if dyq == 0.0 and dzq == 0.0:
+                    continue
+                key = "tiny:c=%s:%r,%r" % (c, dy, dz)
+                e, rp = det.detyz_to_eta_and_radpix(q, c[0], c[1])
+                q2 = np.array(det.eta_and_radpix_to_detyz(e, rp, c[0], c[1]), float)
+                lim = 6e-8 * (1 + rp) + 4e-16 * (abs(c[0]) + abs(c[1])) * 8
+                r.check("tiny-rt", float(np.max(np.abs(q2 - q))), lim, key + ":rt", "pixel restored for a position a tiny offset off the beam-centre column / row", q, q2)
+                ref_eta = math.degrees(math.atan2(-dyq, dzq)) % 360.0
+                r.check("tiny-eta", abs(((e - ref_eta) + 180) % 360 - 180), 5e-6, key + ":eta", "eta on the correct side of 0 / 180 (atan2 reference)", ref_eta, e)
         for eta, rad in ((30.0, 10.0), (255.0, 1400.25)):
             a = [eta, rad, c[0], c[1]]
             for pos in range(4):
